@@ -477,13 +477,10 @@ theorem unslice_series (dfs : List TS) (ub : List Int) (h : Stitchable dfs ub) (
       rw [e]
       exact (get_eq_some_iff (hs _ (List.getElem_mem _)) t x).mpr hx
 
-/-- **unslice_restitch (partial: `n > 1`)**: for NaN-free proper series stitched with `n > 1` columns at strictly
+/-- **unslice_restitch, `n > 1` columns**: for NaN-free proper series stitched with `n > 1` columns at strictly
     increasing bounds, `df_unslice` returns one series per bound (in bound order) and stitching those again with the
-    same bounds and `n` reproduces the frame exactly.  NOT proved: the one-column case `n = 1` (there the order of the
-    rows `df_unslice` concatenates matters, not only their content); it is evaluated on the model by a `#guard` below
-    and checked on the implementation by the round-trip cases of the correspondence check and by `laws`.  Series
-    holding NaN values are excluded on purpose: `df_unslice` drops NaN rows, so an all-NaN row cannot come back. -/
-theorem unslice_restitch_partial (dfs : List TS) (ub : List Int) (h : Stitchable dfs ub) (hstrict : ub.Pairwise (· < ·))
+    same bounds and `n` reproduces the frame exactly. -/
+theorem unslice_restitch_cols (dfs : List TS) (ub : List Int) (h : Stitchable dfs ub) (hstrict : ub.Pairwise (· < ·))
     (hs : ∀ s ∈ dfs, s.Sorted) (hnn : ∀ s ∈ dfs, ∀ p ∈ s, p.2.isSome = true) (n : Nat) (hn : 1 < n) :
     ∃ F U, stitch dfs Option.none (some ub) (some ['(', ']']) n = .ok (some F) ∧ unslice F ub = .ok U ∧
       U.map (·.1) = ub ∧ stitch (U.map (·.2)) Option.none (some ub) (some ['(', ']']) n = .ok (some F) := by
@@ -580,6 +577,112 @@ theorem unslice_restitch_partial (dfs : List TS) (ub : List Int) (h : Stitchable
     cases F; cases F'
     simp only at hwidth hrows
     rw [hwidth, hrows]
+
+def demoSeriesT : List TS := [[(0, some 1), (2, some 2), (5, some 3)], [], [(1, some 7), (2, some 8), (4, some 9), (9, some 6)]]
+def demoBoundsT : List Int := [2, 5, 8]
+
+/-- the series `df_unslice` returns are filed under the bounds, in bound order -/
+theorem unslice_keys (F : Frame) (ub : List Int) (hstrict : ub.Pairwise (· < ·)) (hpos : 0 < F.width) :
+    ((rsOf F ub).map (·.1)).eraseDups.mergeSort (fun a b => decide (a ≤ b)) = ub := by
+  apply Bitemp.sortedLt_ext (dedupSort_sorted _) hstrict
+  intro u
+  rw [mem_dedupSort, List.mem_map]
+  constructor
+  · rintro ⟨⟨u', c⟩, hm, rfl⟩
+    obtain ⟨i, j, _, _, huj, _⟩ := mem_rsOf.mp hm
+    exact List.mem_of_getElem? huj
+  · intro hu
+    obtain ⟨k, hk, rfl⟩ := List.mem_iff_getElem.mp hu
+    exact ⟨(ub[k], _), mem_rsOf.mpr ⟨k, 0, hk, hpos, by simp [hk], rfl⟩, rfl⟩
+
+/-- **unslice_restitch, one column** (`n ≤ 1`, the stitched frame is a Series): `df_unslice` returns for bound `k`
+    exactly the rows of series `k` inside `(ub[k-1], ub[k]]`, and stitching those again reproduces the frame -/
+theorem unslice_restitch_series (dfs : List TS) (ub : List Int) (h : Stitchable dfs ub) (hstrict : ub.Pairwise (· < ·))
+    (hnn : ∀ s ∈ dfs, ∀ p ∈ s, p.2.isSome = true) (n : Nat) (hn : n ≤ 1) :
+    ∃ F U, stitch dfs Option.none (some ub) (some ['(', ']']) n = .ok (some F) ∧ unslice F ub = .ok U ∧
+      U.map (·.1) = ub ∧ stitch (U.map (·.2)) Option.none (some ub) (some ['(', ']']) n = .ok (some F) := by
+  obtain ⟨F, hF, _⟩ := stitch_eq dfs ub h (some ['(', ']']) n false true rfl
+  have hlen := h.len
+  have htwo := h.two
+  have hne : ub ≠ [] := by intro h0; simp [h0] at htwo
+  have hpl := pieces_length dfs ub n false true h.len hne
+  have hfl := framesOf_length dfs n
+  -- one column
+  have hW : F.width = 1 := by
+    have hF2 := hF
+    rw [stitch_ub_eq dfs ub (some ['(', ']']) n false true rfl h.inc h.len hne, assemble_many _ (by rw [hpl]; exact h.two)] at hF2
+    cases hF2
+    show (pieces dfs ub n false true).foldl (fun m f => max m f.width) 0 = 1
+    have hw : ∀ i (hi : i < (pieces dfs ub n false true).length), ((pieces dfs ub n false true)[i]).width = 1 := by
+      intro i hi
+      rw [pieces_getElem dfs ub n false true h.len i hi (by omega) (by omega),
+        framesOf_getElem_series dfs n hn i (by omega) (by omega)]
+    apply foldl_max_width _ _ _ 0 (by omega)
+    · right; exact ⟨(pieces dfs ub n false true)[0]'(by omega), List.getElem_mem _, hw 0 (by omega)⟩
+    · intro f hf
+      obtain ⟨i, hi, rfl⟩ := List.mem_iff_getElem.mp hf
+      rw [hw i hi]; omega
+  have hkeys := unslice_keys F ub hstrict (by omega)
+  -- what is filed under bound `k`
+  have hentry : ∀ k (hk : k < ub.length), nona (((rsOf F ub).filter (·.1 == ub[k])).flatMap (·.2)) =
+      (dfs[k]'(by omega)).filter fun p => inWindow false true (loBound ub k) (.date ub[k]) p.1 := by
+    intro k hk
+    rw [rsOf_series F ub hW, entries_of_map _ _ ub[k] k (List.mem_range.mpr hk) List.nodup_range]
+    · simp only [List.getD_eq_getElem?_getD, List.getElem?_eq_getElem hk, Option.getD_some]
+      rw [slices_eq dfs ub h n F hF k hk, pieces_getElem dfs ub n false true h.len k (by omega) hk (by omega),
+        framesOf_getElem_series dfs n hn k (by omega) (by omega)]
+      rw [column_ofTS (dfs[k]'(by omega)) (fun t => inWindow false true (loBound ub k) (.date ub[k]) t) F.width]
+      apply nona_of_nanfree
+      intro p hp
+      exact hnn _ (List.getElem_mem _) p (List.mem_filter.mp hp).1
+    · intro i hi
+      have hi' : i < ub.length := List.mem_range.mp hi
+      simp only [List.getD_eq_getElem?_getD, List.getElem?_eq_getElem hi', Option.getD_some]
+      constructor
+      · intro e; exact getElem_inj_of_sorted hstrict hi' hk e
+      · rintro rfl; rfl
+  let Us : List TS := ub.map fun u => nona (((rsOf F ub).filter (·.1 == u)).flatMap (·.2))
+  refine ⟨F, ub.map fun u => (u, nona (((rsOf F ub).filter (·.1 == u)).flatMap (·.2))), hF, ?_, ?_, ?_⟩
+  · rw [unslice_eq, hkeys]
+  · simp [List.map_map, Function.comp_def]
+  · have hmap : (ub.map fun u => (u, nona (((rsOf F ub).filter (·.1 == u)).flatMap (·.2)))).map (·.2) = Us := by
+      simp [Us, List.map_map, Function.comp_def]
+    rw [hmap]
+    have hUlen : Us.length = ub.length := by simp [Us]
+    have hpl' := pieces_length Us ub n false true hUlen hne
+    have hfl' := framesOf_length Us n
+    -- the pieces cut from the recovered series are the pieces cut from the original ones
+    have hpieces : pieces Us ub n false true = pieces dfs ub n false true := by
+      apply List.ext_getElem
+      · rw [hpl, hpl']
+      · intro k h1 h2
+        have hk : k < ub.length := by omega
+        rw [pieces_getElem Us ub n false true hUlen k h1 hk (by omega),
+          pieces_getElem dfs ub n false true h.len k h2 hk (by omega),
+          framesOf_getElem_series Us n hn k (by omega) (by omega),
+          framesOf_getElem_series dfs n hn k (by omega) (by omega)]
+        have hUk : Us[k]'(by omega) = (dfs[k]'(by omega)).filter fun p => inWindow false true (loBound ub k) (.date ub[k]) p.1 := by
+          simp only [Us, List.getElem_map]; exact hentry k hk
+        simp only [hUk]
+        congr 1
+        exact ofTS_filter_filter (dfs[k]'(by omega)) (fun t => inWindow false true (loBound ub k) (.date ub[k]) t)
+    rw [stitch_ub_eq Us ub (some ['(', ']']) n false true rfl h.inc hUlen hne, hpieces,
+      ← stitch_ub_eq dfs ub (some ['(', ']']) n false true rfl h.inc h.len hne, hF]
+
+/-- **unslice_restitch**: for every `n`, NaN-free proper series stitched at strictly increasing bounds are recovered by
+    `df_unslice` - one series per bound, in bound order - such that stitching those again reproduces the frame.
+    (Series holding NaN values are excluded on purpose: `df_unslice` drops NaN rows, so an all-NaN row cannot
+    come back; see docs/notes/C13.md.) -/
+theorem unslice_restitch (dfs : List TS) (ub : List Int) (h : Stitchable dfs ub) (hstrict : ub.Pairwise (· < ·))
+    (hs : ∀ s ∈ dfs, s.Sorted) (hnn : ∀ s ∈ dfs, ∀ p ∈ s, p.2.isSome = true) (n : Nat) :
+    ∃ F U, stitch dfs Option.none (some ub) (some ['(', ']']) n = .ok (some F) ∧ unslice F ub = .ok U ∧
+      U.map (·.1) = ub ∧ stitch (U.map (·.2)) Option.none (some ub) (some ['(', ']']) n = .ok (some F) := by
+  by_cases hn : 1 < n
+  · exact unslice_restitch_cols dfs ub h hstrict hs hnn n hn
+  · exact unslice_restitch_series dfs ub h hstrict hnn n (by omega)
+
+example : Stitchable demoSeriesT demoBoundsT ∧ demoBoundsT.Pairwise (· < ·) ∧ (∀ s ∈ demoSeriesT, s.Sorted) ∧
+    (∀ s ∈ demoSeriesT, ∀ p ∈ s, p.2.isSome = true) := ⟨⟨rfl, by decide, rfl⟩, by decide, by decide, by decide⟩
 
 /-! evaluation tests of the full round trip on the model (`List.mergeSort` does not reduce in the kernel) -/
 
